@@ -7,8 +7,11 @@ const SCALARS: [&str; 10] = [
 ];
 
 fn value(rng: &mut Rng) -> String {
-    match rng.below(10) {
+    match rng.below(12) {
         0 => String::new(),
+        // values are kept as they are: quotes, brackets and file suffixes are ordinary text
+        10 => rng.pick(&["\"one is not available\"", "\"a\" \"b\"", "\"\"", "\"", "'x'", "(none)", "[a]", "\"x", "x\""]).to_string(),
+        11 => rng.pick(&["foo-1.0.tgz", "yes.txz", "$NetBSD$", "IGNORE", "none", "NULL"]).to_string(),
         1 => "yes".into(),
         2 => "a=b".into(),
         3 => "  padded  ".into(),
@@ -144,7 +147,8 @@ fn gen_c16(tier: &str, rng: &mut Rng, emit: &mut dyn FnMut(Op)) {
         }
         let bad_rec = rng.below(n);
         for i in 0..n {
-            let name = format!("{}-{}.{}", rng.pick(&["foo", "bar", "py312-baz", "x"]), i, rng.below(10));
+            let name = format!("{}-{}.{}{}", rng.pick(&["foo", "bar", "py312-baz", "x"]), i, rng.below(10),
+                rng.pick(&["", "", "", "", ".tgz", ".tbz", ".txz", ".tzst", ".tar.gz", "nb1", " "]));
             record(rng, &name, fault == 1 && i == bad_rec, fault == 2 && i == bad_rec, &mut lines);
             if rng.chance(1, 3) {
                 lines.push(String::new());
